@@ -14,8 +14,8 @@ pub const SPEC: PropSpec = PropSpec {
 	level: "exploration",
 	rule: "texts: random bytes as UTF-8, random JSON of arbitrary shape, JSON nested 10^2..10^5 deep, near-miss schemas (token-level mutations of valid documents: attribute replaced by a value of another JSON type, size negative / 1e30 / fractional / huge, duplicate keys, empty names, empty unions, unions in unions, primitives as names), flat documents with 10^3..3*10^4 named records chained by forward / backward references; node vectors through the public builder API: empty, dangling keys (also in nodes unreachable from the root, also usize::MAX), self-loops and longer cycles through unnamed nodes and through named nodes, shared nodes, every logical type on every node kind, arbitrary names (empty, dots only, quotes, NUL, 100 KB), 10^4..10^5 nodes. Calls: str::parse::<SchemaMut>, str::parse::<Schema>, freeze, canonical_form_rabin_fingerprint, serde_json::to_string(&SchemaMut); after a successful freeze: Debug formatting, serialization of unit / a generated value, deserialization of random bytes. Monitors: worker exit status (stack overflow = death by signal), panic hook, per-call CPU time. distinct by hash(text or graph)",
 	assumptions: &["8 MiB main-thread stack; documented panicking accessors (root(), Index) are not part of the statement and are not called", "CPU bound: > 5 s for one construction call on an input <= 1 MiB is reported"],
-	cases: (30_000, 3_000_000),
-	secs: (60, 900),
+	cases: (50_000_000, 4_000_000_000),
+	secs: (30, 900),
 	required: &["texts:random-json", "texts:near-miss", "texts:deep-nesting", "texts:long-chain", "graphs:random", "graphs:dangling-key", "graphs:unnamed-cycle", "graphs:huge", "frozen_and_used"],
 	run_case,
 	once: None,
